@@ -490,16 +490,19 @@ def xstack_effect(opcode, opc, oparg: int = 0, jump=None):
         # flag 0x04: a format spec is on the stack, too
         return -1 if oparg & 0x04 else 0
     elif opname == "MAKE_FUNCTION":
-        if version_tuple >= (3, 5):
+        if version_tuple >= (3, 6):
+            # One value is popped per flag set in the low four bits
+            # (defaults, kwdefaults, annotations, closure).
+            flags = bin(oparg & 0x0F).count("1")
+            if version_tuple < (3, 11):
+                return -1 - flags
+            elif version_tuple < (3, 13):
+                return -flags
+            else:
+                return 0
+        elif version_tuple >= (3, 5):
             if 0 <= oparg <= 10:
-                if version_tuple == (3, 5):
-                    return [-1, -2, -3, -3, -2, -3, -3, -4, -2, -3, -3, -4][oparg]
-                elif (3, 6) <= version_tuple < (3, 11):
-                    return [-1, -2, -2, -3, -2, -3, -3, -4, -2, -3, -3, -4][oparg]
-                elif 0 <= oparg <= 2:
-                    return [0, -1, -1][oparg]
-                else:
-                    return None
+                return [-1, -2, -3, -3, -2, -3, -3, -4, -2, -3, -3, -4][oparg]
             else:
                 return None
     elif opname == "CALL" and version_tuple >= (3, 12):
